@@ -53,3 +53,51 @@ contract(
     spec="spec.tiers.IntervalTier_init",
     ensures=wf_interval_clauses("self"),
 )
+
+contract(
+    PT + ".__init__",
+    serves=["C05", "C06", "C07", "C08", "C09", "C10", "C11", "C14"],
+    configs={"minT": OPT, "maxT": OPT},
+    inputs=lambda S, cfg: dict(
+        self=S.obj(PT), name=S.str("name"),
+        entries=S.list("entries", "tuple2"),
+        minT=opt_real(S, "minT", cfg["minT"]), maxT=opt_real(S, "maxT", cfg["maxT"])),
+    spec="spec.tiers.PointTier_init",
+    ensures=[("in-span", "forall(self.entries, lambda p: self.minTimestamp <= p.time and p.time <= self.maxTimestamp)"),
+             ("stripped", "forall(self.entries, lambda p: strip(p.label) == p.label)"),
+             ("sorted", "is_sorted(self.entries)")],
+)
+
+CROP_CFG = {"mode": ["strict", "lax", "truncated", "bogus"], "rebaseToZero": [True, False]}
+WINDOW = ["0 <= cropStart", "cropEnd <= 1e15"]
+
+contract(
+    IT + ".crop",
+    serves=["C06", "C05", "C12", "C13", "C17"],
+    configs=CROP_CFG,
+    inputs=lambda S, cfg: dict(self=wf_interval_tier(S, "self"), cropStart=S.real("cropStart"),
+                               cropEnd=S.real("cropEnd"), mode=cfg["mode"], rebaseToZero=cfg["rebaseToZero"]),
+    requires=WINDOW,
+    spec="spec.tiers.IntervalTier_crop",
+    ensures=wf_interval_clauses("result") + [
+        ("name", "result.name == self.name"),
+        ("span-lo", "result.minTimestamp <= (0 if rebaseToZero else cropStart)"),
+        ("span-exact", "mode == 'lax' or (result.minTimestamp == (0 if rebaseToZero else cropStart)"
+                       " and result.maxTimestamp == (cropEnd - cropStart if rebaseToZero else cropEnd))"),
+    ],
+    frame=["self"],
+)
+
+contract(
+    PT + ".crop",
+    serves=["C06", "C05", "C12", "C13", "C07"],
+    configs={"mode": ["strict", "lax", "truncated"], "rebaseToZero": [True, False]},
+    inputs=lambda S, cfg: dict(self=wf_point_tier(S, "self"), cropStart=S.real("cropStart"),
+                               cropEnd=S.real("cropEnd"), mode=cfg["mode"], rebaseToZero=cfg["rebaseToZero"]),
+    requires=WINDOW,
+    spec="spec.tiers.PointTier_crop",
+    ensures=[("span", "result.minTimestamp == (0 if rebaseToZero else cropStart)"
+                      " and result.maxTimestamp == (cropEnd - cropStart if rebaseToZero else cropEnd)"),
+             ("name", "result.name == self.name")],
+    frame=["self"],
+)
